@@ -167,6 +167,8 @@ class Ex:
     def lookup(self, name: str, fr: Frame) -> Val:
         if name == "__version__":
             return VStr("<pyxel version>")      # versioneer machinery is not interpreted
+        if name in self.cfg.name_overrides and not any(name in f_.locals for f_ in self._frames(fr)):
+            return self.cfg.name_overrides[name]
         f = fr
         while f is not None:
             if name in f.locals:
@@ -177,6 +179,12 @@ class Ex:
             if r is not None:
                 return self.resolved_to_val(r, name)
         return self.builtin(name)
+
+    @staticmethod
+    def _frames(fr):
+        while fr is not None:
+            yield fr
+            fr = fr.parent
 
     def resolved_to_val(self, r, name) -> Val:
         if r[0] == "function":
@@ -286,6 +294,10 @@ class Ex:
             return repr(val.v)
         if isinstance(val, VNone):
             return "None"
+        if isinstance(val, VOpaque):
+            h = self.cfg.lib_overrides.get(("format_" + val.kind,))
+            if h is not None:
+                return h(self, val)
         # any other formatted value: its text is not modelled
         return self.st.fresh_str("fmt")
 
